@@ -16,7 +16,7 @@ OPL = list(OPS.keys())
 
 UWORDS = [b"a", b"b4", b"foo", b"bar_baz", b"1444.11.11", b"-1.000", b"yes", b"no", b"core", b"x" * 13, b"y" * 15, b"z" * 16,
           b"w" * 17, b"v" * 31, b"u" * 32, b"t" * 35, b"caf\xe9", b"\xc3\xa9t\xc3\xa9", b"k.1", b"A-B", b"0", b"-5", b"@var", b"@[1+2]",
-          b"@[a b]", b"1.000", b"tag:ENG", b"a|b", b"x'y", b"q/w", b"p%", b"50%"]
+          b"@[a b]", b"1.000", b"tag:ENG", b"a|b", b"x'y", b"q/w", b"p%", b"50%", b"x\xa2y", b"\xc3\xa2ge", b"p\xfbq", b"\xbd\xa0"]
 HEADERS = [b"rgb", b"hsv", b"hsv360", b"LIST", b"hex"]
 
 
@@ -38,7 +38,7 @@ def gen_scalar(rng, allow_quoted=True):
             elif r < 0.3:
                 out += bytes([rng.choice(b" {}=#[]<>!;\n\t")])
             elif r < 0.35:
-                out += bytes([rng.choice([0xe9, 0xfc, 0x80, 0xff])])
+                out += bytes([rng.choice([0xe9, 0xfc, 0x80, 0xff, 0xa2, 0xdc, 0xfb, 0xfd, 0xa3, 0xbd, 0x8a, 0x89, 0xa0])])
             else:
                 out += bytes([rng.choice(b"abcdefghijklmnopqrstuvwxyz0123456789_.")])
         return ("s", "Q", bytes(out))
